@@ -350,8 +350,9 @@ def forwarders : List String := ["Layer._glyphNameChange", "Layer._glyphUnicodes
 /-- F44: `Image.ColorChanged` re-posted from the layer's colour change carries the LAYER's colours -/
 def payloadFindings : List String := ["Image.layerColorChanged"]
 
-/-- F25: documented and never posted -/
-def neverPosted : List (String × String) := [("Layer", "Layer.GlyphsChanged")]
+/-- documented and never posted: nothing (finding F25, `Layer.GlyphsChanged`, was repaired in /repo: the class
+docstring no longer lists a notification that nothing posts) -/
+def neverPosted : List (String × String) := []
 
 end Setters
 end DefconModel
